@@ -16,8 +16,11 @@ func c16kv(k string, v *string) [2]*string { return [2]*string{sp(k), v} }
 
 func c16Assign(k string, segs ...c16Seg) c16Line { return c16Line{K: sp(k), V: segs} }
 func c16Lit(s string) c16Seg                     { return c16Seg{Lit: sp(s)} }
-func c16Ref(s string) c16Seg                     { return c16Seg{Ref: sp(s)} }
-func c16Bare(k string) c16Line                   { return c16Line{Bare: sp(k)} }
+func c16Ref(s string) c16Seg                     { return c16Seg{Var: sp(s), Braced: true} }
+func c16OpSeg(name, op string, arg ...c16Seg) c16Seg {
+	return c16Seg{Op: sp(name), O: op, Arg: arg}
+}
+func c16Bare(k string) c16Line { return c16Line{Bare: sp(k)} }
 
 // all files of ≤ maxLines lines over the two keys A, B; literals are tagged with file and line
 func c16SmallFiles(tag string, maxLines int) [][]c16Line {
@@ -45,6 +48,7 @@ func c16SmallFiles(tag string, maxLines int) [][]c16Line {
 }
 
 func runC16(ctx *core.Ctx) {
+	ctx.CrashLimit = c16CrashLimit
 	defer func() {
 		ctx.Wait()
 		os.RemoveAll("/dev/shm/" + filepath.Base(ctx.Scratch)) // see c16TreeBase
@@ -58,6 +62,7 @@ func runC16(ctx *core.Ctx) {
 	if want("oracle-ex") {
 		c16OracleExhaustive(ctx)
 		c16OracleUnderFile(ctx)
+		c16OracleOperators(ctx)
 	}
 	ctx.Res.Exhaustive = only == ""
 	if want("random") {
@@ -167,18 +172,44 @@ func c16RandLines(r *rand.Rand, keys []string, tag string, malformed bool) []c16
 		case x == 3 && malformed:
 			ls = append(ls, c16Line{Bad: true})
 		default:
-			var segs []c16Seg
-			for j, m := 0, r.Intn(4); j < m; j++ {
-				if r.Intn(2) == 0 {
-					segs = append(segs, c16Ref(keys[r.Intn(len(keys))]))
-				} else {
-					segs = append(segs, c16Lit(c16Lits[r.Intn(len(c16Lits))]+tag))
-				}
-			}
-			ls = append(ls, c16Assign(k, segs...))
+			ls = append(ls, c16Assign(k, c16RandSegs(r, keys, tag, 2, malformed, true)...))
 		}
 	}
 	return ls
+}
+
+var c16Ops = []string{":-", "-", ":+", "+", ":?", "?"}
+
+// c16RandSegs: a value of the interpolation grammar whose rendering survives dotenv lexing unchanged (no white space,
+// quote, backslash or newline).  `errs`: the error operators `:?` / `?` may occur; `malformed`: text that is not a
+// rendering of any AST (`${`, `${1}`) may occur.
+func c16RandSegs(r *rand.Rand, keys []string, tag string, depth int, malformed, errs bool) []c16Seg {
+	var segs []c16Seg
+	t := true
+	for j, m := 0, r.Intn(4); j < m; j++ {
+		switch x := r.Intn(16); {
+		case x < 5:
+			segs = append(segs, c16Lit(c16Lits[r.Intn(len(c16Lits))]+tag))
+		case x < 9:
+			segs = append(segs, c16Ref(keys[r.Intn(len(keys))]))
+		case x == 9:
+			// an unbraced reference must not run into a name character
+			segs = append(segs, c16Seg{Var: sp(keys[r.Intn(len(keys))])}, c16Lit("-"+tag))
+		case x == 10:
+			segs = append(segs, c16Seg{Esc: &t})
+		case x == 11 && malformed:
+			segs = append(segs, c16Lit([]string{"${", "${1}", "$", "${A", "}"}[r.Intn(5)]))
+		case depth > 0:
+			op := c16Ops[r.Intn(4)]
+			if errs && r.Intn(12) == 0 {
+				op = c16Ops[4+r.Intn(2)] // `:?` / `?`: the whole file fails when unsatisfied
+			}
+			segs = append(segs, c16OpSeg(keys[r.Intn(len(keys))], op, c16RandSegs(r, keys, tag, depth-1, false, errs)...))
+		default:
+			segs = append(segs, c16Lit("z"))
+		}
+	}
+	return segs
 }
 
 func c16RandPenv(r *rand.Rand, keys []string) map[string]string {
@@ -350,7 +381,8 @@ func c16EnvState(k string, st int) [][2]*string {
 	return nil
 }
 
-// how a file mentions a key: 0 not at all, 1 literal, 2 bare, 3 literal followed by a reference to `ref`
+// how a file mentions a key: 0 not at all, 1 literal, 2 bare, 3 literal followed by a reference to `ref`,
+// 4–6 operators of the interpolation grammar on `ref` (`:-`, `+`, `-`)
 func c16FileLine(tag, k string, kind int, ref string) []c16Line {
 	switch kind {
 	case 1:
@@ -359,6 +391,12 @@ func c16FileLine(tag, k string, kind int, ref string) []c16Line {
 		return []c16Line{c16Bare(k)}
 	case 3:
 		return []c16Line{c16Assign(k, c16Lit(tag+"."+k+"<"), c16Ref(ref), c16Lit(">"))}
+	case 4: // default when unset or empty
+		return []c16Line{c16Assign(k, c16Lit(tag+"."+k+"<"), c16OpSeg(ref, ":-", c16Lit("dflt."+tag)), c16Lit(">"))}
+	case 5: // alternative when set, built from another reference
+		return []c16Line{c16Assign(k, c16OpSeg(ref, "+", c16Lit("alt."+tag+"/"), c16Ref(k)), c16Seg{Var: sp(ref)})}
+	case 6: // default when unset only; escaped dollar
+		return []c16Line{c16Assign(k, c16Seg{Esc: new(bool)}, c16OpSeg(ref, "-", c16Ref(k), c16Lit(".d")))}
 	}
 	return nil
 }
@@ -469,21 +507,58 @@ func c16OracleExhaustive(ctx *core.Ctx) {
 	}
 }
 
-// the recorded finding (Neg.missing_optional_skipped_false): an optional env file under a regular file
+// the repaired finding (Neg.missing_optional_skipped_false_pre): an env file under a regular file is missing —
+// skipped when optional, "not found" when required
 func c16OracleUnderFile(ctx *core.Ctx) {
 	for pos := 0; pos < 3; pos++ {
 		for st := 0; st < 4; st++ {
-			o := c16OracleArgs{Penv: map[string]string{"K2": "P.K2"}, Keys: []string{"K1", "K2"}, Environment: c16EnvState("K1", st), NoLoad: st%2 == 1, Discard: st >= 2}
-			for f := 0; f < 3; f++ {
-				tag := fmt.Sprintf("F%d", f+1)
-				l := c16Layer{Path: tag + ".env", Present: true, Required: true, Lines: c16FileLine(tag, "K1", 3, "K2")}
-				if f == pos {
-					l.Present, l.Required, l.UnderFile = false, false, true
+			for req := 0; req < 2; req++ {
+				o := c16OracleArgs{Penv: map[string]string{"K2": "P.K2"}, Keys: []string{"K1", "K2"}, Environment: c16EnvState("K1", st), NoLoad: st%2 == 1, Discard: st >= 2}
+				for f := 0; f < 3; f++ {
+					tag := fmt.Sprintf("F%d", f+1)
+					l := c16Layer{Path: tag + ".env", Present: true, Required: true, Lines: c16FileLine(tag, "K1", 3, "K2")}
+					if f == pos {
+						l.Present, l.Required, l.UnderFile = false, req == 1, true
+					}
+					o.EnvLayers = append(o.EnvLayers, l)
 				}
-				o.EnvLayers = append(o.EnvLayers, l)
+				ctx.Count("oracle-env-file-under-regular-file")
+				ctx.Add("c16.oracle", o)
 			}
-			ctx.Count("oracle-optional-under-regular-file")
-			ctx.Add("c16.oracle", o)
+		}
+	}
+}
+
+// operators of the interpolation grammar inside env / label files: `K=…${R:-d}…`, `${R+…}`, `${R-…}` with R unset,
+// empty or set in the project environment, an earlier file or an earlier line
+func c16OracleOperators(ctx *core.Ctx) {
+	n := 0
+	for kind := 4; kind <= 6; kind++ {
+		for rstate := 0; rstate < 7; rstate++ {
+			for _, st := range []int{0, 2} {
+				n++
+				o := c16OracleArgs{Penv: map[string]string{}, Keys: []string{"K", "R"}, Environment: c16EnvState("K", st),
+					Discard: n%2 == 0, ListForm: n%3 == 0, NoLoad: n%2 == 1}
+				var f1, f2 []c16Line
+				switch rstate {
+				case 1, 6:
+					o.Penv["R"] = "P.R"
+				case 2:
+					o.Penv["R"] = ""
+				case 3:
+					f1 = append(f1, c16Assign("R", c16Lit("F1.R")))
+				case 4:
+					f1 = append(f1, c16Assign("R"))
+				}
+				if rstate >= 5 {
+					f2 = append(f2, c16Assign("R", c16Lit("F2.R")))
+				}
+				f2 = append(f2, c16FileLine("F2", "K", kind, "R")...)
+				o.EnvLayers = []c16Layer{{Path: "F1.env", Present: true, Required: true, Lines: f1}, {Path: "F2.env", Present: true, Required: true, Lines: f2}}
+				o.LabelLayers = []c16Layer{{Path: "LF1.lbl", Present: true, Required: true, Lines: f1}, {Path: "LF2.lbl", Present: true, Required: true, Lines: f2}}
+				ctx.Count("oracle-operators")
+				ctx.Add("c16.oracle", o)
+			}
 		}
 	}
 }
@@ -514,7 +589,7 @@ func c16OracleRandom(ctx *core.Ctx) {
 			var ls []c16Line
 			for j, m := 0, r.Intn(6); j < m; j++ {
 				k := keys[r.Intn(nk)]
-				kind := 1 + r.Intn(3)
+				kind := 1 + r.Intn(6)
 				l := c16FileLine(fmt.Sprintf("%s#%d", tag, j), k, kind, keys[r.Intn(nk)])
 				ls = append(ls, l...)
 			}
